@@ -309,6 +309,41 @@ def prop_c08(tier, failures, counter, samples):
                 failures.append(f"sharded save changed the pre-existing file {f}")
     finally:
         shutil.rmtree(d, ignore_errors=True)
+    # sharded saves of every shard count (incl. layouts that fit in ONE shard, whose file keeps the plain name) over pre-existing
+    # files: foreign files and the loaded model's own data file; nothing pre-existing may change and its readers stay valid
+    for limit in (10 ** 9, 1 << 20, 3000, 1000):
+        for scenario in ("foreign", "own-file"):
+            d = tempfile.mkdtemp(prefix="c08s_")
+            try:
+                counter[0] += 1
+                model, expected, inits = make_model(kinds=("arr",))
+                if scenario == "foreign":
+                    for fn in ("w.data", "w-00001-of-00002.data", "w-00002-of-00002.data", "w-00001-of-00003.data"):
+                        open(os.path.join(d, fn), "wb").write(b"PRE-EXISTING " + fn.encode() * 50)
+                    subject = model
+                else:
+                    ir.save(model, os.path.join(d, "m.onnx"), external_data="w.data")
+                    subject = ir.load(os.path.join(d, "m.onnx"))
+                    subject.graph.initializers.add(ir.Value(name="extra_w", const_value=ir.tensor(np.arange(64, dtype=np.float32), name="extra_w")))
+                before = {f: open(os.path.join(d, f), "rb").read() for f in os.listdir(d)}
+                ext_before = [(v.name, v.const_value, v.const_value.numpy().copy()) for v in all_initializers(subject)
+                              if isinstance(v.const_value, ir.ExternalTensor)]
+                raised = None
+                try:
+                    ir.save(subject, os.path.join(d, "m.onnx" if scenario == "own-file" else "m2.onnx"), external_data="w.data", max_shard_size_bytes=limit)
+                except Exception as e:  # noqa: BLE001
+                    raised = e
+                for f, data in before.items():
+                    if f.endswith(".data") and open(os.path.join(d, f), "rb").read() != data:
+                        failures.append(f"sharded save (limit {limit}, {scenario}) changed the pre-existing file {f} (raised: {raised!r})"[:300])
+                for name, t, arr in ext_before:
+                    try:
+                        if not t.valid() or not np.array_equal(t.numpy(), arr):
+                            failures.append(f"sharded save (limit {limit}, {scenario}): external tensor {name} reading a pre-existing file is no longer valid/equal")
+                    except Exception as e:  # noqa: BLE001
+                        failures.append(f"sharded save (limit {limit}, {scenario}): external tensor {name} unreadable afterwards: {e!r}"[:300])
+            finally:
+                shutil.rmtree(d, ignore_errors=True)
 
 
 def prop_c09(tier, failures, counter, samples):
